@@ -23,7 +23,7 @@ func init() {
 		Batches:   func(tier string) int { return 16 },
 		Run:       runC13,
 		Technique: "reference-evaluator runtime monitor: an independent admission evaluator (net/netip containment on unmapped addresses) predicts refusal or the bound scope for every (configuration, remote address); observed at Loader.Get (scope identified by its unique key) and on the full server over simnet with fabricated remote addresses (event log of refused connections, AAA outcomes under the expected key)",
-		Rule: "configurations: 1-6 ordered scopes with overlapping IPv4/IPv6 prefixes and distinct keys, deny/allow lists of valid CIDRs, users in one/several/no scopes, same user name with different passwords per scope; addresses: first/last address of every prefix, the addresses just outside, IPv4-mapped forms, 4- and 16-byte encodings, random. " +
+		Rule: "configurations: 1-14 ordered scopes with overlapping IPv4/IPv6 prefixes and distinct keys, deny/allow lists of valid CIDRs, users in one/several/no scopes, same user name with different passwords per scope; addresses: first/last address of every prefix, the addresses just outside, IPv4-mapped forms, 4- and 16-byte encodings, random. " +
 			"A class is (verdict: deny/allow-miss/no-scope/scope index, address family+encoding, which lists exist); distinct_nontrivial counts classes",
 		Assumptions: []string{"IPv4(-mapped) address against an IPv6 prefix that covers ::ffff:0:0/96 (e.g. ::/0) and v4-mapped prefix notation are unjudged (net.IPNet and netip disagree there; the property does not say)",
 			"only valid CIDRs are configured in deny/allow lists, as the property's quantifier says"},
@@ -70,6 +70,9 @@ func c13Config(r *gen.R) *c13World {
 		return pick()
 	}
 	ns := 1 + r.Intn(6)
+	if r.Chance(1, 4) {
+		ns = 7 + r.Intn(8) // many scopes, most of them small
+	}
 	for k := 0; k < ns; k++ {
 		s := c13Scope{Name: fmt.Sprintf("sc%d", k), Key: fmt.Sprintf("key%d-%s", k, r.Alnum(6)), HasUsers: !r.Chance(1, 6)}
 		for i, n := 0, 1+r.Intn(3); i < n; i++ {
